@@ -269,3 +269,10 @@ def s_functools_reduce(a, b, v):
     k = functools.reduce(np.kron, [a[:2], b[:2], a[2:4]])
     t = functools.reduce(lambda x, y: x * 2 + y, [1, 2, 3], v)
     return np.hstack([k, np.array([t])])
+
+
+def s_nested_comprehension(a, b, v):
+    counts = [2, 0, 3]
+    flat = [a[idx] * 10 + k for idx in range(len(counts)) for k in range(counts[idx])]
+    pairs = [m for x in range(1, 4) for m in (x, -x)]
+    return np.array(flat + pairs)
